@@ -14,7 +14,7 @@ from . import oracles as O
 from . import specs
 from .core import target
 
-NAMES = ['A', 'B', 'C']
+NAMES = ['A', 'B', 'C', 'D']
 DIVERGENT = ('HardSphere', 'Exponential', 'HardCoreLennardJones')
 
 
@@ -108,7 +108,7 @@ def assemble(n, dr, kT, dias, length, om_self, pots, split, eta, clo_draw, metho
         om_self[1] = ['Diblock', {'NA': NA, 'NB': NB, 'l': l, 'part': 'BB'}]
     w = w / w.sum()
     # type names are arbitrary labels: not always the default letters in alphabetical order
-    names = [NAMES, ['C', 'A', 'B'], ['solvent', 'polymer', 'np'], NAMES][(int(length) // 4 + n) % 4][:n]
+    names = [NAMES, ['C', 'A', 'B', 'AB'], ['solvent', 'polymer', 'np', 'ion'], NAMES][(int(length) // 4 + n) % 4][:n]
     spec = {'types': list(names), 'kT': kT, 'domain': {'length': int(length), 'dr': dr}, 'dia': list(dias),
             'eta': [float('%.12g' % (eta * f)) for f in w], 'omega': {}, 'potential': {}, 'closure': {}, 'method': method}
     names = ['PY'] * 6 + ['MSA'] * 3 + ['HNC'] * 4 + ['MS']
